@@ -8,3 +8,5 @@ cd /verif/spec
 tla-sany MC.tla >/dev/null
 tla-sany MCTrace.tla >/dev/null
 echo "setup ok"
+# binding demonstration (DESIGN.md 4.5 / 13): corrupted traces must be rejected; informational
+python3 /verif/tools/selftest.py || echo "WARNING: selftest expectations failed"
